@@ -50,12 +50,14 @@ def run_sched(ctx):
         ents = []
         for i, e in enumerate(c["ents"]):
             ent = SyncEntry(st, FILE)
+            # the priority is given before the change times: raising the priority of an entry that already has
+            # change times is a punt, which moves those times later (that is the deferral rule, not the selection rule)
+            ent.priority = e["prio"] - 2          # specification priorities 1..4 stand for -1..2
             for side in (0, 1):
                 ent[side].oid = "o%d_%d" % (i, side)
                 ent[side].path = "/p%d" % i
                 if e["ch"][side]:
                     ent[side].changed = 1000.0 + e["ch"][side]
-            ent.priority = e["prio"] - 2          # specification priorities 1..4 stand for -1..2
             ents.append(ent)
         clk.t = 1000.0 + c["now"]
         got = st.change(c["age"])
